@@ -87,9 +87,9 @@ Definition CountIs (P : Z -> Prop) (n : Z) : Prop :=
   (n = 0 /\ forall j, ~ P j) \/ (0 < n /\ exists a, forall j, P j <-> a <= j < a + n).
 (* one plus the number of earlier dates with the same year (month) *)
 Definition OrdinalIs (c : cal) (j o : Z) : Prop :=
-  exists j0, (forall j', (j' < j /\ InYear c (l_year (lbl c j)) j') <-> j0 <= j' < j) /\ o = j - j0 + 1.
+  exists j0, j0 <= j /\ (forall j', (j' < j /\ InYear c (l_year (lbl c j)) j') <-> j0 <= j' < j) /\ o = j - j0 + 1.
 Definition DayOrdinalIs (c : cal) (j o : Z) : Prop :=
-  exists j0, (forall j', (j' < j /\ InMonth c (l_year (lbl c j)) (l_month (lbl c j)) j') <-> j0 <= j' < j) /\ o = j - j0 + 1.
+  exists j0, j0 <= j /\ (forall j', (j' < j /\ InMonth c (l_year (lbl c j)) (l_month (lbl c j)) j') <-> j0 <= j' < j) /\ o = j - j0 + 1.
 
 (* --- executable closed forms of the same notions --- *)
 (* first day number of the Julian (old-style) and Gregorian (new-style) segment of year y, and their sizes *)
